@@ -100,7 +100,11 @@ func fingerprint(prop string, f Failure) string {
 		msg = stripDigits(msg)
 		return f.Kind + ":" + site + ":" + msg
 	}
-	return "assert:" + f.Label
+	label := f.Label
+	if i := strings.Index(label, ": "); i > 0 {
+		label = label[:i] // the part after ": " quotes the concrete input
+	}
+	return "assert:" + label
 }
 
 func stripDigits(s string) string {
@@ -590,7 +594,11 @@ func runCheck(prop, tier string) int {
 			fmt.Printf("  heavy unit: %d paths (%d undecided) %s\n", r.paths, r.undecided, clip(r.unit.String(), 200))
 		}
 	}
-	for _, l := range vioLines {
+	for i, l := range vioLines {
+		if i >= 25 {
+			fmt.Printf("(%d further violations not listed)\n", len(vioLines)-i)
+			break
+		}
 		fmt.Println(l)
 	}
 	if violations > 0 {
